@@ -123,7 +123,7 @@ func showFiles(files map[string]string) string {
 func drawC05(t *rapid.T) C05Case {
 	cfg := gen.HistCfg{
 		MaxActions: rapid.SampledFrom([]int{6, 12, 25}).Draw(t, "maxActions"),
-		Accruals:   rapid.IntRange(0, 2).Draw(t, "accruals") == 0,
+		Accruals:   rapid.IntRange(0, 1).Draw(t, "accruals") == 0,
 		Assertions: true, Closes: true, Perf: true,
 		Prices:    rapid.SampledFrom([]int{0, 1, 1}).Draw(t, "prices"),
 		MaxDec:    rapid.SampledFrom([]int{2, 4, 8}).Draw(t, "maxDec"),
